@@ -639,6 +639,23 @@ def many_channels_spec(nc, nt=4, ns=60, nsw=5, seed=2, wm_scale=None, shanks=Fal
     return spec
 
 
+def big_merge_spec(nt=300, merged=280, ns=2000, nc=16, seed=6):
+    """Hand-made: one cluster made of several hundred templates with uneven spike counts."""
+    rs = np.random.RandomState(seed)
+    spec = large_spec(ns, seed=seed, nt=nt, nc=nc, nsw=3)
+    st_ = np.r_[np.arange(nt), rs.randint(0, nt, size=ns - nt) ** 2 % nt]     # uneven counts
+    rs.shuffle(st_)
+    spec['spike_templates'] = st_.tolist()
+    spec['tmpl_dtype'] = 'uint16'
+    spec['pcf'] = None
+    spec['pos'] = [[16.0 * (i % 2), 20.0 * (i // 2)] for i in range(nc)]
+    # (merge ops address the sorted list of present ids by position: the two lowest first, then
+    # always the lowest remaining template with the cluster created last)
+    spec['curation'] = [{'op': 'merge', 'a': 0, 'b': 1}] + \
+        [{'op': 'merge', 'a': 0, 'b': -1} for _ in range(merged - 2)]
+    return spec
+
+
 def stray_spike_spec(n_major=120000, seed=4):
     """Hand-made: a cluster of n_major spikes of template 0 merged with a single spike of the
     (1000 times larger) template 1; the weighted mean still carries 1/(n_major+1) of template 1."""
